@@ -94,7 +94,11 @@ pub fn rand_attr(rng: &mut StdRng, k: usize, tid: TransactionId) -> (Box<dyn Att
         _ => {
             // raw attribute of an unknown type (comprehension required or optional), any length 0..=763
             let ty: u16 = loop {
-                let t: u16 = if rng.gen_bool(0.5) { rng.gen_range(0x0100..0x7fff) } else { rng.gen_range(0x8100..=0xffff) };
+                let t: u16 = match rng.gen_range(0..10) {
+                    0 => *[0x0000u16, 0x0001, 0x7fff, 0x8000, 0xffff, 0x0002, 0x00ff].choose(rng).unwrap(),   // boundary / reserved type codes
+                    1..=5 => rng.gen_range(0x0100..0x7fff),
+                    _ => rng.gen_range(0x8100..=0xffff),
+                };
                 if ![0x8028u16, 0x8022, 0x8023, 0x8029, 0x802a, 0x8002, 0x8003].contains(&t) { break t; }
             };
             let n = len_pick(rng, 763);
